@@ -2,7 +2,7 @@ SPECIFICATION SpecM
 CONSTANTS
   Dev = {}
   Meaning <- MC_Meaning
-  Followers = {"f1", "f2"}
+  Followers = {"f1"}
   CAlphabet <- MC_CAlphabet
   MaxChan = 3
   Ops_ = {"set", "cset", "delete", "pdelete", "import", "connect", "disconnect"}
